@@ -336,3 +336,6 @@ VARIANTS = [v for v in VARIANTS if v is not None]
 # ------------------------------------------------------------------ round 6
 G("r6-token-local-text", ["C04", "C01", "C12", "C07"], (AGG, "        text = ctx.Module_docstring().getText()", "        docstring_token = ctx.Module_docstring().symbol\n        text = docstring_token.text"))
 B("r6-token-column-prefix", "C04", "C04-R2", (AGG, "        text = ctx.Module_docstring().getText()", "        docstring_token = ctx.Module_docstring().symbol\n        text = \" \" * docstring_token.column + docstring_token.text"))
+B("r6-symlinks-listed", "C14", "C14-R11", (INIT, "            if not settings.input.follow_symlinks:\n                for subdir in copy.copy(subdirs):\n                    if os.path.islink(os.path.join(root, subdir)):\n                        subdirs.remove(subdir)\n", ""))
+B("r6-symlinks-pruned-when-followed", "C14", "C14-R11", (INIT, "            if not settings.input.follow_symlinks:\n                for subdir in copy.copy(subdirs):", "            if settings.input.follow_symlinks:\n                for subdir in copy.copy(subdirs):"))
+G("r6-symlinks-slice-filter", ["C13", "C14", "C15", "C17", "C18"], (INIT, "                for subdir in copy.copy(subdirs):\n                    if os.path.islink(os.path.join(root, subdir)):\n                        subdirs.remove(subdir)\n", "                subdirs[:] = [d for d in subdirs if not os.path.islink(os.path.join(root, d))]\n"))
